@@ -127,6 +127,20 @@ func makeArray(t reflect.Type, n int) array {
 	return array{elem: elem, size: size, len: n}
 }
 
+// growArray returns an array of n elements starting with the elements of a.
+func growArray(t reflect.Type, a array, n int) array {
+	b := makeArray(t, n)
+	if a.len > 0 && n > 0 {
+		reflect.Copy(b.sliceOf(t), a.sliceOf(t))
+	}
+	return b
+}
+
+func (a array) sliceOf(t reflect.Type) reflect.Value {
+	s := slice{ptr: a.elem, len: a.len, cap: a.len}
+	return reflect.NewAt(reflect.SliceOf(t), unsafe.Pointer(&s)).Elem()
+}
+
 func (a array) index(i int) value {
 	return value{ptr: unsafe.Pointer(uintptr(a.elem) + (uintptr(i) * a.size))}
 }
